@@ -177,6 +177,7 @@ API_COMBOS = [  # (store, output form, chunk size)
     ("path", "pixels", 10 ** 7), ("path", "pixels+index", 1), ("path", "func", 10 ** 7),
     ("uri", "dense", 10 ** 7), ("uri", "pixels+index", 10 ** 7), ("handle", "sparse", 10 ** 7), ("handle", "pixels", 1),
     ("uri", "dense:score", 1), ("uri", "sparse:score", 10 ** 7),       # field=: the second value column of the collection
+    ("legacy", "dense", 1), ("legacy", "pixels", 10 ** 7),             # a format-version-2 copy (no storage-mode attribute) of a symmetric cooler
 ]
 JOIN_COMBOS = [("path", "pixels+join", 10 ** 7), ("handle", "pixels+join", 1)]
 
@@ -191,6 +192,7 @@ def _api_case(R, n, symm, cells, tag, only, join=False, reduced=False):
     M = build.dense(n, pix, symm)
     p1 = scratch.fresh()
     p2 = scratch.fresh()
+    p3 = None
     try:
         build.create(p1, bins, pix, symm)
         # /a/b carries a second value column (score = 1000 - 3 * count) that field= selects
@@ -208,10 +210,20 @@ def _api_case(R, n, symm, cells, tag, only, join=False, reduced=False):
         h = h5py.File(p2, "r")
         try:
             srcs = {"path": cooler.Cooler(p1), "uri": cooler.Cooler(p2 + "::a/b"), "handle": cooler.Cooler(h["/a/b"])}
+            if symm:
+                import shutil
+                p3 = scratch.fresh()
+                shutil.copy(p1, p3)
+                with h5py.File(p3, "r+") as f3:
+                    del f3.attrs["storage-mode"]
+                    f3.attrs["format-version"] = 2
+                srcs["legacy"] = cooler.Cooler(p3)
             other = cooler.Cooler(p2 + "::/other").matrix(balance=False)
             inner_k = 0
             combos = (API_COMBOS[1::2] if reduced else API_COMBOS) + (JOIN_COMBOS if join else [])
             for store, out, cs in combos:
+                if store not in srcs:
+                    continue
                 clr = srcs[store]
                 if out == "dense":
                     sel = clr.matrix(balance=False, chunksize=cs)
@@ -290,6 +302,8 @@ def _api_case(R, n, symm, cells, tag, only, join=False, reduced=False):
             h.close()
     finally:
         scratch.rm(p1, p2)
+        if p3:
+            scratch.rm(p3)
 
 
 def _longrow(R, symm, only):
